@@ -98,6 +98,11 @@ func sameValue(a, b ssa.Value) bool {
 	if a == b {
 		return true
 	}
+	if fa, ok := a.(*ssa.FieldAddr); ok {
+		if fb, ok := b.(*ssa.FieldAddr); ok {
+			return fa.Field == fb.Field && types.Identical(fa.X.Type(), fb.X.Type()) && sameValue(fa.X, fb.X)
+		}
+	}
 	ua, ok1 := a.(*ssa.UnOp)
 	ub, ok2 := b.(*ssa.UnOp)
 	if ok1 && ok2 && ua.Op == token.MUL && ub.Op == token.MUL {
